@@ -96,8 +96,16 @@ def fastq_bytes(recs):
 
 
 def reset_adapter_names():
+    """Restart the numbering of unnamed adapters (a convenience for readable observations: no clause depends on it;
+    a tree that numbers differently is left alone)."""
     import cutadapt.adapters as A
-    A._generate_adapter_name.__defaults__[0][0] = 1
+    try:
+        A._generate_adapter_name.__defaults__[0][0] = 1
+    except Exception:  # noqa
+        try:
+            A.reset_adapter_names()
+        except Exception:  # noqa
+            pass
 
 
 def run_cli(argv, inputs, workdir, keep=False, want_stdout=False):
